@@ -178,6 +178,12 @@ pub fn curated() -> Vec<(&'static str, Spec, bool)> {
     add("late_selfloop2", true, vec![r(r"(?m)a\n*$"), r("[a-z]").prio(1)]);
     add("late_selfloop3", false, vec![Pat::bregex(br"\$[a-z]*(?-u:\B)"), Pat::bregex(b"[ ,]")]);
     add("late_selfloop_skip", true, vec![s(r"#+(?-u:\B)"), r("[a-z#]").prio(1)]);
+    // byte-mode delimited literals: a non-accepting loop state whose only exit is the exact
+    // complement of its self-loop (in str mode the complement fans out over the UTF-8 lead bytes)
+    add("delim_bytes", false, vec![Pat::bregex(b"\"[^\"]*\""), Pat::bregex(b"[a-z]+"), Pat::skip(" ")]);
+    add("delim_bytes2", false, vec![Pat::bregex(b"'[^']*'"), Pat::bregex(b"<[^>]*>").prio(9), Pat::bregex(b"[^'<]").prio(1)]);
+    add("delim_bytes3", false, vec![Pat::bregex(b"#[^\n]*\n").greedy(), Pat::bregex(b"[a-z #]").prio(1)]);
+    add("delim_bytes_skip", false, vec![Pat::skip("/[^/]*/"), Pat::bregex(b"[a-z]+")]);
     // byte classes that wrap around 0xff on two mutually linked loop states
     add("wrap_class_loops", false, vec![Pat::bregex(b"([^a-z]+|[a-z]+)+")]);
     add("wrap_class_loops2", false, vec![Pat::bregex(b"([\\x00-\\x10\\xFF]+|[a-z]+)+"), Pat::bregex(b"[\\x80-\\xfe]").prio(1)]);
